@@ -230,6 +230,12 @@ def specs(tier):
     out.append(([("CCO", "40%"), ("CC", None)], 500.0))
     out.append(([(POLY[0], "60%"), ("CCO", "40%")], 800.0))
     out.append(([(POLY[0], repr(500.0)), (POLY[1], repr(700.0))], None))
+    # a component declared with 0 % in front of others (it must never be picked, and the others keep their shares)
+    out.append(([("CCCCO", "0%"), ("CCOCC", "30%"), ("CC(C)CO", repr(700.0))], None))
+    out.append(([("C", "0%"), ("CCCCCCCCCC", "40%"), ("CC", "60%")], 600.0))
+    # absolute masses that do not add up to the caller's system mass but are accepted (C12 finding class): iteration is still bounded by system_mass
+    out.append(([("CC", "50%"), ("CCO", repr(200.0)), ("CCN", repr(200.0))], 1000.0))
+    out.append(([("CC", "50%"), ("CCO", repr(400.0)), ("CCN", repr(400.0))], 1000.0))
     # not generable
     out.append(([("CC", "50%"), ("CCC", None)], None))
     out.append(([("CC", "90%"), ("OC{[$][$]CC[$][$]}CN", repr(50.0))], None))
